@@ -95,6 +95,14 @@ class Ctx:
                     raise Machinery("vacuity: action %s of %s never taken" % (a, module))
         return r
 
+    def mc_expect_violation(self, module, cfg, invariant, timeout=600):
+        """Sensitivity: a deliberately broken variant of the algorithm layer (a named deviation) MUST be rejected by TLC."""
+        r = tlc.run(module, cfg, workers=4, timeout=timeout)
+        if invariant not in r.invariant_violated and not (invariant == "PROPERTY" and r.property_violated):
+            raise Machinery("sensitivity: %s/%s was expected to violate %s but did not" % (module, cfg, invariant))
+        self.notes.setdefault("deviations_rejected_by_tlc", []).append("%s/%s violates %s" % (module, cfg, invariant))
+        return r
+
     def gen(self, module, cfg=None, name="cases", env=None, timeout=1800):
         """Run a generator module; returns the list of cases it wrote (ndjson)."""
         cfg = cfg or module + ".cfg"
